@@ -276,6 +276,9 @@ func (win Window) Wrap(segs ...Segment) (col int, row int) {
 	)
 	for _, seg := range segs {
 		rest := seg.Text
+		// The state is only valid together with the rest it was
+		// returned with: begin every segment's text afresh
+		state = -1
 		for len(rest) > 0 {
 			if row >= rows {
 				break
